@@ -385,7 +385,11 @@ impl Display for SequencedSegment {
 
 impl StreamSocket {
     fn new(capacity: usize) -> (Self, mpsc::Receiver<SequencedSegment>, BidiFlowControl) {
-        let (tx, rx) = mpsc::channel(capacity);
+        // Data segments are bounded by the `capacity` flow-control credits; the
+        // FIN takes no credit, so it needs a slot of its own. Without it a FIN
+        // that arrives while `capacity` data segments are queued stays in the
+        // reorder buffer for good and the reader never sees end-of-file.
+        let (tx, rx) = mpsc::channel(capacity + 1);
         let flow_control = BidiFlowControl::new(capacity);
         let sock = Self {
             buf: IndexMap::new(),
